@@ -29,6 +29,9 @@ import (
 //    A=<a>/<b>    GET /api/v1/chain/header/<a>/<b>/ancestor
 //    C=<id>/<id>  POST /api/v1/chain/header/commonAncestor  (JSON list of hashes; "C=" is the empty list)
 //    B=<name>     POST /api/v1/chain/header/commonAncestor with a raw body: null | obj | num | bad
+//    D            not a query: this batch runs on the stack built with StackOpts.DebugLog (a real logger at the service's
+//                 default level, debug) instead of zerolog.Nop() - the log level is a dimension of the tie, the model has none
+// a list argument may end in *<n>: the list is repeated cyclically up to n elements (long commonAncestor bodies)
 // observable  = one answer per query joined by ";" and a final "pure" / "MODIFIED" (TableDigest("headers")
 // before and after the whole batch of reads).
 //
@@ -292,6 +295,14 @@ func (e *c04Env) hashArgs(arg string) ([]string, error) {
 	if arg == "" {
 		return nil, nil
 	}
+	n := -1
+	if i := strings.IndexByte(arg, '*'); i >= 0 {
+		v, err := strconv.Atoi(arg[i+1:])
+		if err != nil || v < 0 || v > 100000 {
+			return nil, fmt.Errorf("bad repeat count in %q", arg)
+		}
+		n, arg = v, arg[:i]
+	}
 	var out []string
 	for _, x := range strings.Split(arg, "/") {
 		h, err := e.hashArg(x)
@@ -299,6 +310,13 @@ func (e *c04Env) hashArgs(arg string) ([]string, error) {
 			return nil, err
 		}
 		out = append(out, h)
+	}
+	if n >= 0 {
+		base := out
+		out = make([]string, 0, n)
+		for i := 0; i < n; i++ {
+			out = append(out, base[i%len(base)])
+		}
 	}
 	return out, nil
 }
@@ -310,6 +328,8 @@ func (e *c04Env) query(q string) (string, error) {
 		kind, arg = q[:i], q[i+1:]
 	}
 	switch kind {
+	case "D":
+		return "log=debug", nil
 	case "X":
 		rows, err := e.s.DumpHeaders()
 		if err != nil {
@@ -420,6 +440,7 @@ type c04Gen struct {
 	state    map[int]string
 	prev     map[int]int
 	unk      []int // ids that are not stored
+	idx      int   // running number of the store (long lists are not sent to every store)
 	maxH     int64
 	zeroLead map[int]bool // stored ids whose hash starts with a zero digit
 }
@@ -714,18 +735,64 @@ func (g *c04Gen) batches() [][]string {
 		}
 	}
 	chunk("common-ancestor", qs, 50)
+
+	// long bodies (> 1 KiB from 16 hashes on, > 64 KiB): stored hashes repeated cyclically, so duplicates are included and
+	// the answer is known; connected headers above genesis (an ancestor always exists) and all stored non-genesis headers
+	qs = nil
+	var conn, allNG []string
+	for _, id := range g.stored {
+		if id == genesisID {
+			continue
+		}
+		if len(allNG) < 24 {
+			allNG = append(allNG, strconv.Itoa(id))
+		}
+		if g.state[id] != "O" && len(conn) < 24 {
+			conn = append(conn, strconv.Itoa(id))
+		}
+	}
+	sizes := []int{16, 17}
+	if g.idx%3 == 0 {
+		sizes = append(sizes, 40)
+	}
+	if g.idx%15 == 0 {
+		sizes = append(sizes, 200)
+	}
+	if g.idx%100 == 0 {
+		sizes = append(sizes, 2000)
+	}
+	for _, n := range sizes {
+		if len(conn) > 0 {
+			qs = append(qs, fmt.Sprintf("C=%s*%d", strings.Join(conn, "/"), n))
+		}
+		if len(allNG) > len(conn) && n == 17 && g.idx%2 == 0 {
+			qs = append(qs, fmt.Sprintf("C=%s*%d", strings.Join(allNG, "/"), n))
+		}
+		c.Count(fmt.Sprintf("ca:long-list-%d", n))
+	}
+	if len(qs) > 0 {
+		chunk("common-ancestor-long", qs, 50)
+	}
 	return out
 }
 
 func runC04(c *Ctx) error {
-	s, err := NewStack(StackOpts{Dir: c.TmpDir("c04")})
+	// two stacks: the harness default (zerolog.Nop) and one with a real logger at the service's DEFAULT level (debug),
+	// so that whatever only runs "when debug logging is on" (request / body logging middleware) is part of the tie
+	sNop, err := NewStack(StackOpts{Dir: c.TmpDir("c04")})
 	if err != nil {
 		return err
 	}
-	defer s.Close()
+	defer sNop.Close()
+	sDbg, err := NewStack(StackOpts{Dir: c.TmpDir("c04dbg"), DebugLog: true})
+	if err != nil {
+		return err
+	}
+	defer sDbg.Close()
 
 	// runBatch executes the queries on the CURRENT store (history already run) and records the case.
 	runBatch := func(e *c04Env, hline string, qs []string) error {
+		s := e.s
 		before := s.TableDigest("headers")
 		obs := make([]string, 0, len(qs)+1)
 		for _, q := range qs {
@@ -744,7 +811,19 @@ func runC04(c *Ctx) error {
 		c.Case(hline+";"+strings.Join(qs, ";"), strings.Join(obs, ";"))
 		return nil
 	}
-	load := func(h *History) (*c04Env, error) {
+	hasD := func(qs []string) bool {
+		for _, q := range qs {
+			if q == "D" {
+				return true
+			}
+		}
+		return false
+	}
+	load := func(h *History, debug bool) (*c04Env, error) {
+		s := sNop
+		if debug {
+			s = sDbg
+		}
 		m, err := Materialize(h)
 		if err != nil {
 			return nil, err
@@ -761,7 +840,7 @@ func runC04(c *Ctx) error {
 		if err != nil {
 			return err
 		}
-		e, err := load(h)
+		e, err := load(h, hasD(qs))
 		if err != nil {
 			return err
 		}
@@ -770,19 +849,28 @@ func runC04(c *Ctx) error {
 
 	seen := map[string]bool{}
 	total := 0
+	nStores := 0
 	doHistory := func(h *History, tag string) error {
 		line := h.Line()
 		if seen[line] {
 			return nil
 		}
 		seen[line] = true
-		e, err := load(h)
+		debug := nStores%2 == 1
+		e, err := load(h, debug)
 		if err != nil {
 			return fmt.Errorf("history %s: %w", line, err)
 		}
 		g, err := newC04Gen(c, e)
 		if err != nil {
 			return err
+		}
+		g.idx = nStores
+		nStores++
+		if debug {
+			c.Count("log:debug")
+		} else {
+			c.Count("log:nop")
 		}
 		c.Count("gen:" + tag)
 		for _, cl := range HistoryClass(h) {
@@ -791,6 +879,9 @@ func runC04(c *Ctx) error {
 		c.Count(fmt.Sprintf("rows:%02d", (len(g.stored)+4)/5*5))
 		for _, b := range g.batches() {
 			total += len(b)
+			if debug {
+				b = append([]string{"D"}, b...)
+			}
 			if err := runBatch(e, line, b); err != nil {
 				return fmt.Errorf("history %s: %w", line, err)
 			}
@@ -806,7 +897,7 @@ func runC04(c *Ctx) error {
 			return fmt.Errorf("corpus line %q: %w", l, err)
 		}
 		if len(qs) > 0 {
-			e, err := load(h)
+			e, err := load(h, hasD(qs))
 			if err != nil {
 				return fmt.Errorf("corpus line %q: %w", l, err)
 			}
